@@ -1,16 +1,18 @@
 //! C09 - byte-exact conformance to RFC 9807 / RFC 9497.
 //! The honest flow (and a no-record login) is executed step by step on the implementation and, in lock-step, by
 //! the reference model.  For each transition the model computes the expected output from the inputs and the
-//! random choices actually made; those are read from witnesses: the blind from the serialized client state, and
-//! nonces / seeds / fake masking key by searching all injective assignments of roles to the recorded tape draws
-//! of that call (no draw order is assumed; unused draws are allowed).
+//! random choices actually made; those are read from witnesses inside the outputs (blind and ephemeral secret from the
+//! client states, seed and keys from the setup, nonces and ephemeral public keys from the messages); the server's
+//! response is predicted from the client's view of the three DH values, so nothing is assumed about how, in which order
+//! or in what chunks the implementation consumes its generator (only the unobservable fake masking key is searched for
+//! among the slices of what that call drew, and left unjudged if not found).
 use super::common::*;
 use crate::adapter::{Blob, E};
 use crate::alphabet::Bytes;
 use crate::api::Api;
 use crate::flow::o;
 use crate::fw::{self, Cx, Report, Tier};
-use crate::refmodel::{cat, Ids, Ke2Out, Spec, NN};
+use crate::refmodel::{cat, Ids, Spec, NN};
 use crate::tape::Tape;
 use serde_json::json;
 use std::time::Instant;
@@ -96,36 +98,26 @@ pub fn lockstep(api: &Api, it: &InTuple, seed: u64, cx: &mut Cx) {
     let mut t = Tape::seeded(seed, &format!("c09/{}", it.tape));
     let p = &it.p;
     let mut ob = Obs { cx, compared: 0, mismatches: 0 };
+    // Every random choice is read from a WITNESS in the outputs themselves (the seed and keys inside the setup, the
+    // blind and ephemeral secret inside the client states, the nonces and ephemeral public keys inside the messages),
+    // never from an assumption about how or in which order the implementation consumes its generator.  Whether those
+    // values really come from the generator is C17's business; the RFC does not prescribe how a key pair is sampled.
     // ---- setup
-    t.take_log();
     let setup = match api.setup(&mut t) {
         Ok(s) => s,
         Err(e) => return fail(ob.cx, "setup", &e),
     };
-    let d = t.take_draws();
     let (nh, nsk, npk, nok, noe) = (sp.nh(), sp.nsk(), sp.npk(), sp.nok(), sp.noe());
     if setup.len() != nh + 2 * nsk {
         ob.cx.violate("setup/length", format!("server setup has {} bytes, expected {}", setup.len(), nh + 2 * nsk));
         return;
     }
-    let mut found = None;
-    for a in assignments(&d, &[nh, nsk, nsk]) {
-        let (ssk, _) = sp.derive_dh_keypair(&d[a[1]]);
-        let (fsk, _) = sp.derive_dh_keypair(&d[a[2]]);
-        if setup == cat(&[&d[a[0]], &ssk, &fsk]) {
-            found = Some((d[a[0]].clone(), ssk, fsk));
-            break;
-        }
-    }
+    let (seed_b, ssk, fsk) = (setup[..nh].to_vec(), setup[nh..nh + nsk].to_vec(), setup[nh + nsk..].to_vec());
     ob.compared += 1;
-    let (seed_b, ssk, fsk) = match found {
-        Some(x) => x,
-        None => {
-            ob.cx.violate("setup/bytes", "server setup is not seed || DeriveDH(s1) || DeriveDH(s2) for any assignment of tape draws".into());
-            // continue with the values the implementation holds, so that later steps are still compared
-            (setup[..nh].to_vec(), setup[nh..nh + nsk].to_vec(), setup[nh + nsk..].to_vec())
-        }
-    };
+    if !sp.ke_g().scalar_valid(&ssk) || !sp.ke_g().scalar_valid(&fsk) {
+        ob.cx.violate("setup/keys", "a private key inside the server setup is not a valid non-zero scalar of the key-exchange group".into());
+        return;
+    }
     let spk = sp.ke.pubkey(&ssk);
     let fpk = sp.ke.pubkey(&fsk);
     match api.setup_pk(&Blob::n(&setup)) {
@@ -141,7 +133,6 @@ pub fn lockstep(api: &Api, it: &InTuple, seed: u64, cx: &mut Cx) {
         Ok(x) => x,
         Err(e) => return fail(ob.cx, "reg_start", &e),
     };
-    t.take_log();
     if creg.len() != nok + noe {
         ob.cx.violate("reg_start/length", format!("client registration state has {} bytes, expected {}", creg.len(), nok + noe));
         return;
@@ -162,28 +153,15 @@ pub fn lockstep(api: &Api, it: &InTuple, seed: u64, cx: &mut Cx) {
         Ok(x) => x,
         Err(e) => return fail(ob.cx, "reg_finish", &e),
     };
-    let d = t.take_draws();
-    let (rpwd, _) = sp.randomized_pwd(&p.pw, &blind, &resp[..noe.min(resp.len())], &*ksf);
-    let mut st = None;
-    for a in assignments(&d, &[NN]) {
-        let s = sp.store(&rpwd, &spk, &ids_, &d[a[0]]);
-        if sp.record(&s) == upload {
-            st = Some(s);
-            break;
-        }
+    if upload.len() != npk + nh + NN + nh {
+        ob.cx.violate("reg_finish/length", format!("registration upload has {} bytes, expected {}", upload.len(), npk + 2 * nh + NN));
+        return;
     }
-    ob.compared += 1;
-    let st = match st {
-        Some(s) => s,
-        None => {
-            // report against the envelope nonce the implementation put on the wire
-            let nonce = if upload.len() >= npk + nh + NN { upload[npk + nh..npk + nh + NN].to_vec() } else { vec![0; NN] };
-            let s = sp.store(&rpwd, &spk, &ids_, &nonce);
-            let fresh = d.iter().any(|x| x == &nonce);
-            ob.eq("reg_finish", if fresh { "registration upload" } else { "registration upload (envelope nonce is not a tape draw)" }, &upload, &sp.record(&s));
-            s
-        }
-    };
+    let (rpwd, _) = sp.randomized_pwd(&p.pw, &blind, &resp[..noe.min(resp.len())], &*ksf);
+    // witness: the envelope nonce on the wire
+    let env_nonce = upload[npk + nh..npk + nh + NN].to_vec();
+    let st = sp.store(&rpwd, &spk, &ids_, &env_nonce);
+    ob.eq("reg_finish", "registration upload", &upload, &sp.record(&st));
     ob.eq("reg_finish", "export key", &export, &st.export_key);
     ob.eq("reg_finish", "server public key", &spk_seen, &spk);
     let file = match api.sreg_finish(&Blob::n(&upload)) {
@@ -196,9 +174,8 @@ pub fn lockstep(api: &Api, it: &InTuple, seed: u64, cx: &mut Cx) {
         Ok(x) => x,
         Err(e) => return fail(ob.cx, "login_start", &e),
     };
-    let d = t.take_draws();
-    if clogin.len() != nok + noe + NN + npk + nsk + NN {
-        ob.cx.violate("login_start/length", format!("client login state has {} bytes", clogin.len()));
+    if clogin.len() != nok + noe + NN + npk + nsk + NN || ke1.len() != noe + NN + npk {
+        ob.cx.violate("login_start/length", format!("client login state has {} bytes, KE1 {}", clogin.len(), ke1.len()));
         return;
     }
     let lblind = clogin[..nok].to_vec();
@@ -206,52 +183,66 @@ pub fn lockstep(api: &Api, it: &InTuple, seed: u64, cx: &mut Cx) {
         ob.cx.violate("login_start/blind", "the blind in the client login state is not a valid non-zero scalar".into());
         return;
     }
-    let mut c1 = None;
-    for a in assignments(&d, &[nsk, NN]) {
-        let (esk, epk) = sp.derive_dh_keypair(&d[a[0]]);
-        let k = cat(&[&sp.oprf.blind(&p.pw, &lblind), &d[a[1]], &epk]);
-        if k == ke1 {
-            c1 = Some((esk, d[a[1]].clone(), k));
-            break;
-        }
+    // witnesses: the ephemeral secret and the nonce inside the client state
+    let cesk = clogin[nok + noe + NN + npk..nok + noe + NN + npk + nsk].to_vec();
+    let cnonce = clogin[nok + noe + NN + npk + nsk..].to_vec();
+    if !sp.ke_g().scalar_valid(&cesk) {
+        ob.cx.violate("login_start/ephemeral-key", "the client's ephemeral private key is not a valid non-zero scalar".into());
+        return;
     }
-    ob.compared += 1;
-    let (cesk, cnonce) = match c1 {
-        Some((esk, n, _)) => (esk, n),
-        None => {
-            ob.cx.violate("login_start/KE1", "KE1 is not Blind(pw) || nonce || DeriveDH(seed).pk for any assignment of tape draws to (seed, nonce)".into());
-            (clogin[nok + noe + NN + npk..nok + noe + NN + npk + nsk].to_vec(), clogin[nok + noe + NN + npk + nsk..].to_vec())
-        }
-    };
+    ob.eq("login_start", "KE1", &ke1, &cat(&[&sp.oprf.blind(&p.pw, &lblind), &cnonce, &sp.ke.pubkey(&cesk)]));
     ob.eq("login_start", "client login state", &clogin, &cat(&[&lblind, &ke1, &cesk, &cnonce]));
     let ctx = p.ctx.clone().unwrap_or_default();
+    let lay2 = sp.layout(crate::refmodel::Kind::CredResp);
+    // The server's ephemeral secret is not observable, so the expected response is computed from the CLIENT's view of
+    // the three Diffie-Hellman values (RFC 9807 6.4.4: both views are equal); witnesses: masking nonce, server nonce and
+    // server ephemeral public key as they appear in the response.
+    let expect_ke2 = |ob: &mut Obs, step: &str, ke2: &[u8], slogin: &[u8], rec_pk: &[u8], rec_sk: &[u8], masking_key: Option<&[u8]>, envelope: &[u8]| -> Option<Vec<u8>> {
+        if ke2.len() != sp.len_of(crate::refmodel::Kind::CredResp) {
+            ob.cx.violate(&format!("{}/length", step), format!("credential response has {} bytes", ke2.len()));
+            return None;
+        }
+        let (mn, sn, epk_s) = (lay2[1].of(ke2), lay2[3].of(ke2), lay2[4].of(ke2));
+        if !sp.ke_g().elem_valid(epk_s) {
+            ob.cx.violate(&format!("{}/ephemeral-key", step), "the server's ephemeral public key is not a valid group element".into());
+            return None;
+        }
+        let evaluated = sp.evaluate(&seed_b, &p.cid, &ke1[..noe]);
+        ob.eq(step, "OPRF evaluation", lay2[0].of(ke2), &evaluated);
+        let masked = match masking_key {
+            Some(mk) => {
+                let m = sp.masked_response(mk, mn, &spk, envelope);
+                ob.eq(step, "masked response", lay2[2].of(ke2), &m);
+                m
+            }
+            None => lay2[2].of(ke2).to_vec(),
+        };
+        let cred_resp = cat(&[&evaluated, mn, &masked]);
+        let idc = p.idu.clone().unwrap_or_else(|| rec_pk.to_vec());
+        let idsv = ids_v.clone().unwrap_or_else(|| spk.clone());
+        let pre = sp.preamble(&ctx, &idc, &ke1, &idsv, &cred_resp, sn, epk_s);
+        let ikm = cat(&[&sp.ke.dh(&cesk, epk_s), &sp.ke.dh(&cesk, &spk), &sp.ke.dh(rec_sk, epk_s)]);
+        let (km2, km3, session_key, _) = sp.derive_keys(&ikm, &pre);
+        let th = sp.h().hash(&[&pre]);
+        let mac_s = crate::refmodel::hmac(sp.h(), &km2, &[&th]);
+        ob.eq(step, "server MAC", lay2[5].of(ke2), &mac_s);
+        let th2 = sp.h().hash(&[&pre, &mac_s]);
+        let expected_client_mac = crate::refmodel::hmac(sp.h(), &km3, &[&th2]);
+        let a = cat(&[&km3, &th2, &session_key]);
+        let b = cat(&[&expected_client_mac, &session_key]);
+        if slogin != &b[..] {
+            ob.eq(step, "server login state", slogin, &a);
+        } else {
+            ob.compared += 1;
+        }
+        Some(session_key)
+    };
     // server, record present
     let (ke2, slogin) = match api.slogin_start(&mut t, &Blob::n(&setup), Some(&Blob::n(&file)), &Blob::n(&ke1), &p.cid, o(&p.ctx), o(&p.idu), ids_v.as_deref()) {
         Ok(x) => x,
         Err(e) => return fail(ob.cx, "slogin_start", &e),
     };
-    let d = t.take_draws();
-    let mut k2: Option<Ke2Out> = None;
-    for a in assignments(&d, &[NN, nsk, NN]) {
-        let k = sp.ke2(&seed_b, &p.cid, &ssk, &spk, &st.client_pk, &st.masking_key, &st.envelope, &ke1, &ctx, &ids_, &d[a[0]], &d[a[2]], &d[a[1]]);
-        if k.ke2 == ke2 {
-            k2 = Some(k);
-            break;
-        }
-    }
-    ob.compared += 1;
-    match &k2 {
-        None => ob.cx.violate("slogin_start/KE2", "KE2 does not equal the RFC's GenerateKE2 for any assignment of tape draws to (masking nonce, key-share seed, server nonce)".into()),
-        Some(k) => {
-            let a = cat(&[&k.km3, &k.hashed_transcript_with_mac, &k.session_key]);
-            let b = cat(&[&k.expected_client_mac, &k.session_key]);
-            if slogin != b {
-                ob.eq("slogin_start", "server login state", &slogin, &a);
-            } else {
-                ob.compared += 1;
-            }
-        }
-    }
+    let sk_model = expect_ke2(&mut ob, "slogin_start", &ke2, &slogin, &st.client_pk, &st.client_sk, Some(&st.masking_key), &st.envelope);
     // client finish
     let (ke3, sk_c, export2, spk2) = match api.login_finish(&Blob::n(&clogin), &p.pw, &Blob::n(&ke2), o(&p.ctx), o(&p.idu), ids_v.as_deref(), p.ksf) {
         Ok(x) => x,
@@ -268,40 +259,39 @@ pub fn lockstep(api: &Api, it: &InTuple, seed: u64, cx: &mut Cx) {
     }
     match api.slogin_finish(&Blob::n(&slogin), &Blob::n(&ke3)) {
         Ok(sk_s) => {
-            if let Some(k) = &k2 {
-                ob.eq("slogin_finish", "session key", &sk_s, &k.session_key);
+            if let Some(k) = &sk_model {
+                ob.eq("slogin_finish", "session key", &sk_s, k);
             }
         }
         Err(e) => return fail(ob.cx, "slogin_finish", &e),
     }
-    // server, record absent
+    // server, record absent: the record is (fake public key, a random masking key, all-zero envelope)
+    t.take_log();
     let (fke2, fst) = match api.slogin_start(&mut t, &Blob::n(&setup), None, &Blob::n(&ke1), &p.cid, o(&p.ctx), o(&p.idu), ids_v.as_deref()) {
         Ok(x) => x,
         Err(e) => return fail(ob.cx, "slogin_start(no record)", &e),
     };
     let d = t.take_draws();
     let zero_env = vec![0u8; NN + nh];
-    let mut fk: Option<Ke2Out> = None;
-    for a in assignments(&d, &[nh, NN, nsk, NN]) {
-        let k = sp.ke2(&seed_b, &p.cid, &ssk, &spk, &fpk, &d[a[0]], &zero_env, &ke1, &ctx, &ids_, &d[a[1]], &d[a[3]], &d[a[2]]);
-        if k.ke2 == fke2 {
-            fk = Some(k);
-            break;
-        }
-    }
-    ob.compared += 1;
-    match &fk {
-        None => ob.cx.violate("slogin_start(no record)/KE2", "the no-record KE2 does not equal the RFC's fake response for any assignment of tape draws to (masking key, masking nonce, key-share seed, server nonce)".into()),
-        Some(k) => {
-            let a = cat(&[&k.km3, &k.hashed_transcript_with_mac, &k.session_key]);
-            let b = cat(&[&k.expected_client_mac, &k.session_key]);
-            if fst != b {
-                ob.eq("slogin_start(no record)", "server login state", &fst, &a);
-            } else {
-                ob.compared += 1;
+    // the fake masking key is not observable: identify it among the contiguous nh-byte slices of what this call drew
+    // (any offset inside any draw); if it cannot be identified the masked response is left unjudged
+    let mut fake_mk: Option<Vec<u8>> = None;
+    if fke2.len() == sp.len_of(crate::refmodel::Kind::CredResp) {
+        'outer: for dr in d.iter().filter(|x| x.len() >= nh && x.len() <= 1024) {
+            for off in 0..=dr.len() - nh {
+                let cand = &dr[off..off + nh];
+                if sp.masked_response(cand, lay2[1].of(&fke2), &spk, &zero_env) == lay2[2].of(&fke2) {
+                    fake_mk = Some(cand.to_vec());
+                    break 'outer;
+                }
             }
         }
     }
+    if fake_mk.is_none() {
+        ob.cx.undetermined += 1;
+        ob.cx.outcome("fake-masking-key-unidentified");
+    }
+    let _ = expect_ke2(&mut ob, "slogin_start(no record)", &fke2, &fst, &fpk, &fsk, fake_mk.as_deref(), &zero_env);
     let (c, m) = (ob.compared, ob.mismatches);
     cx.add("model_observations_compared", c);
     cx.outcome(if m == 0 { "conforms" } else { "MISMATCH" });
